@@ -358,7 +358,7 @@ func vfErrKind(err error) string {
 	}
 }
 
-// vfFragObs renders one fragment: off:total:plen:size:flags:ident:blocks:sliceok:payloadhex
+// vfFragObs renders one fragment: off:total:plen:size:flags:ident:blocks:sliceok:valid:payloadhex
 // orig is the bundle that was fragmented (possibly itself a fragment); blocks are `num/type/len/same`.
 func vfFragObs(orig Bundle, f Bundle, withHex bool) string {
 	op := orig.PrimaryBlock
@@ -422,8 +422,16 @@ func vfFragObs(orig Bundle, f Bundle, withHex bool) string {
 	if withHex {
 		hx = vfHex(data)
 	}
-	return fmt.Sprintf("%d:%d:%d:%d:%d:%s:%s:%d:%s", fp.FragmentOffset, fp.TotalDataLength, len(data), len(vfSer(f)),
-		uint64(fp.BundleControlFlags), id, bl, sliceok, hx)
+	// a valid bundle of its own: passes CheckValid, its serialisation parses and re-serialises identically
+	fser := vfSer(f)
+	valid := 0
+	if vfCloneBundle(f).CheckValid() == nil {
+		if pf, err := ParseBundle(bytes.NewReader(fser)); err == nil && bytes.Equal(vfSer(pf), fser) {
+			valid = 1
+		}
+	}
+	return fmt.Sprintf("%d:%d:%d:%d:%d:%s:%s:%d:%d:%s", fp.FragmentOffset, fp.TotalDataLength, len(data), len(fser),
+		uint64(fp.BundleControlFlags), id, bl, sliceok, valid, hx)
 }
 
 // vfShuffles returns n orders of 0..k-1: identity, reverse, rotations and random ones.
